@@ -45,3 +45,13 @@ Theorem C05_rm_then_absent : forall s k, uniq_names (abs s) -> snd (set_delitem 
   getitem (fst (set_delitem s SRoot k)) SRoot k = None.
 Proof. exact EditMapSpec.get_after_del. Qed.
 Print Assumptions C05_rm_then_absent.
+
+(* the model's binding look-ups are the source's: find_by_name / find_named / find_root of the edit heap model equal
+   _find_binding / _find_named_binding / _find_attrpath_root REGENERATED from cli/manipulations.py on every run *)
+From Dyn Require Import FindGen FindProps.
+Theorem C05_lookup_is_source_lookup : forall s ids key nested,
+  _find_binding nat (fun _ => true) (name_of s) ids key = find_by_name s ids key /\
+  _find_named_binding nat (fun _ => true) (name_of s) (nested_of s) ids key nested = find_named s ids key nested /\
+  _find_attrpath_root nat (fun _ => true) (name_of s) (nested_of s) ids key = find_root s ids key.
+Proof. exact (fun s ids key nested => conj (find_binding_refines s ids key) (conj (find_named_refines s ids key nested) (find_root_refines s ids key))). Qed.
+Print Assumptions C05_lookup_is_source_lookup.
